@@ -1,73 +1,2 @@
-(** Transport lemmas: what the model's reader / writer returns is what the code translated from src/body.rs (theories/Gen2.v) returns,
-    in the shape the property files use.  Consequences of Gen2_equiv_body / Gen2_equiv_reader_chunked only. *)
-From Coq Require Import Lia.
-From Hoot Require Import Base Chunk Body GenLib Gen Gen2.
-From Hoot.proofs Require Import BytesLemmas Gen2_equiv_body Gen2_equiv_reader_chunked.
-Open Scope N_scope.
-
-Lemma gen_read_ok_of_model : forall r src dst stop r' i out,
-  limit_fits r src dst ->
-  reader_read r src (len dst) stop = Ok (r', i, out) ->
-  gen_br_read r src dst stop = Ok (r', out ++ drop (len out) dst, (i, len out)).
-Proof.
-  intros r src dst stop r' i out Hf Hm.
-  pose proof (gen_br_read_equiv r src dst stop Hf) as H. rewrite Hm in H. unfold rd_rel in H.
-  destruct (gen_br_read r src dst stop) as [[[r1 d1] [i1 o1]]|e|s]; try contradiction.
-  destruct H as (-> & -> & -> & ->). reflexivity.
-Qed.
-
-Lemma gen_read_err_of_model : forall r src dst stop e,
-  limit_fits r src dst ->
-  reader_read r src (len dst) stop = Err e -> gen_br_read r src dst stop = Err e.
-Proof.
-  intros r src dst stop e Hf Hm.
-  pose proof (gen_br_read_equiv r src dst stop Hf) as H. rewrite Hm in H. unfold rd_rel in H.
-  destruct (gen_br_read r src dst stop) as [[[r1 d1] [i1 o1]]|e1|s]; try contradiction. congruence.
-Qed.
-
-Lemma gen_read_panic_only_if_model : forall r src dst stop s,
-  limit_fits r src dst ->
-  gen_br_read r src dst stop = Panic s -> exists s', reader_read r src (len dst) stop = Panic s'.
-Proof.
-  intros r src dst stop s Hf Hg.
-  pose proof (gen_br_read_equiv r src dst stop Hf) as H. rewrite Hg in H. unfold rd_rel in H.
-  destruct (reader_read r src (len dst) stop) as [[[r2 i2] o2]|e|s']; try contradiction. eauto.
-Qed.
-
-Lemma gen_write_ok_of_model : forall m e input avail out0 w' used bs,
-  sized_fits m avail input ->
-  writer_write {| w_mode := m; w_ended := e |} input avail = Ok (w', used, bs) ->
-  gen_bw_write m e input avail out0 = Ok (w_mode w', w_ended w', avail - len bs, out0 ++ bs, used) /\ len bs <= avail.
-Proof.
-  intros m e input avail out0 w' used bs Hf Hm.
-  pose proof (gen_bw_write_equiv m e input avail out0 Hf) as H. rewrite Hm in H. unfold wr_rel in H.
-  destruct (gen_bw_write m e input avail out0) as [[[[[m1 e1] a1] o1] u1]|er|s]; try contradiction.
-  destruct H as (-> & -> & -> & -> & -> & Hle). split; [reflexivity|exact Hle].
-Qed.
-
-Lemma gen_write_never_err : forall m e input avail out0 er,
-  sized_fits m avail input -> gen_bw_write m e input avail out0 <> Err er.
-Proof.
-  intros m e input avail out0 er Hf Hg.
-  pose proof (gen_bw_write_equiv m e input avail out0 Hf) as H. rewrite Hg in H. unfold wr_rel in H.
-  destruct (writer_write {| w_mode := m; w_ended := e |} input avail) as [[[w u] b]|e2|s]; contradiction.
-Qed.
-
-Lemma gen_write_panic_only_if_model : forall m e input avail out0 s,
-  sized_fits m avail input ->
-  gen_bw_write m e input avail out0 = Panic s -> exists s', writer_write {| w_mode := m; w_ended := e |} input avail = Panic s'.
-Proof.
-  intros m e input avail out0 s Hf Hg.
-  pose proof (gen_bw_write_equiv m e input avail out0 Hf) as H. rewrite Hg in H. unfold wr_rel in H.
-  destruct (writer_write {| w_mode := m; w_ended := e |} input avail) as [[[w u] b]|e2|s']; try contradiction. eauto.
-Qed.
-
-Lemma gen_direct_ok_of_model : forall m e amount w',
-  writer_direct {| w_mode := m; w_ended := e |} amount = Ok w' ->
-  exists u, gen_bw_consume_direct_write m e amount = Ok (w_mode w', w_ended w', u).
-Proof.
-  intros m e amount w' Hm.
-  pose proof (gen_bw_direct_equiv m e amount) as H. rewrite Hm in H. unfold dw_rel in H.
-  destruct (gen_bw_consume_direct_write m e amount) as [[[m1 e1] u]|er|s]; try contradiction.
-  destruct H as (-> & ->). eauto.
-Qed.
+(** Split into Gen2_transport_read / Gen2_transport_write; this file re-exports them. *)
+From Hoot.proofs Require Export Gen2_transport_read Gen2_transport_write.
